@@ -255,7 +255,8 @@ def c10(run):
 
 
 def c11(run):
-    return generic_check(run, [], [],
+    return generic_check(run, [("MC_two.cfg", "MC_two.tla", {"timeout": 300})],
+                         [("MC_two_m.cfg", "MC_two.tla", {"timeout": 900, "workers": 12}), ("MC_two_t.cfg", "MC_two.tla", {"timeout": 1500, "workers": 12})],
         [("two", ["map:kv16:collide:24:1200:two:plan2=mixed", "map:kv24:zero:14:700:two:plan2=fewpos"]),
          ("twoset", ["set:k8t:collide:20:900:setalg:plan2=mixed"]),
          ("twofault", ["map:kv16:collide:24:700:two:fault=40,fclass=clone,plan2=mixed", "set:k8t:collide:20:400:setalg:fault=30,fclass=clone"])],
@@ -428,7 +429,7 @@ def c19(run):
 
 
 def c20(run):
-    return generic_check(run, [], [],
+    return generic_check(run, [("MC_serde.cfg", "MC_serde.tla", {"timeout": 300})], [],
         [("serde", ["map:kv16:collide:24:900:serde", "map:k4v4:zero:14:400:serde"]),
          ("serdeset", ["set:k8t:collide:20:700:serdeset", "set:k1:fewpos:16:300:serdeset"])],
         [("serde2", ["map:kv24:mixed:40:4000:serde", "map:kv200:collide:20:2000:serde", "set:k8t:zero:14:3000:serdeset"]),
